@@ -25,6 +25,7 @@ from .c19_lib import g_int
 from .c19_lib import g_numstr
 from .c19_lib import g_word
 from .c19_lib import num_class
+from .c19_lib import numeric_string_in_domain
 from .c19_lib import to_number
 from .c19_run import Runner
 from .c19_run import unit
@@ -90,6 +91,8 @@ def case_arith2(R: Runner, inp: dict[str, Any]) -> None:
         cls = "wide-range-operands"
         for f in ("plus", "minus", "times", "divided_by", "modulo", "at_least", "at_most"):
             R.both(f, a, b, cls=cls)
+        return
+    if not (numeric_string_in_domain(a) and numeric_string_in_domain(b)):
         return
     na, nb = to_number(a), to_number(b)
     ea, eb = exact(na), exact(nb)
@@ -177,6 +180,8 @@ def gen_overflow(rng: random.Random) -> dict[str, Any]:
 @unit("arith1", ("abs", "ceil", "floor", "round"), gen_arith1)
 def case_arith1(R: Runner, inp: dict[str, Any]) -> None:
     x, d = inp["x"], inp["digits"]
+    if not numeric_string_in_domain(x) or isinstance(x, bool) or isinstance(d, bool):
+        return
     n = to_number(x)
     e = exact(n)
     isf = isinstance(n, float)
